@@ -821,6 +821,33 @@ func genProgram(r *RNG, name string, twin bool, nonASCII bool) []*Program {
 	p.HasEQU, p.HasGlobal = hasEqu, hasGlobal
 	p.ErrPath = true // the statement mix always may contain unsupported forms; measured later
 	out := []*Program{p}
+	if twin && r.Chance(1, 2) {
+		// "edit" twin: the same program after a one-line edit that changes a size (edit-and-reassemble):
+		// same header, same number of statements and labels, but label addresses move
+		var cand []int
+		for i, l := range body {
+			if strings.HasPrefix(l, "\tRESB\t") || strings.HasPrefix(l, "\tDB\t") {
+				cand = append(cand, i)
+			}
+		}
+		if len(cand) > 0 {
+			i := cand[r.Intn(len(cand))]
+			if len(cand) > 2 && r.Chance(2, 3) {
+				i = cand[r.Intn(len(cand)/2+1)] // early in the file: more labels move
+			}
+			body2 := append([]string(nil), body...)
+			if strings.HasPrefix(body[i], "\tRESB\t") {
+				body2[i] = body[i] + "+" + fmt.Sprint(pick(r, []int{1, 2, 16, 100, 128}))
+			} else {
+				body2[i] = body[i] + ", 0x90" + strings.Repeat(", 0", r.Intn(9))
+			}
+			q := &Program{Name: name + "_edit", Header: p.Header, Body: body2, Origin: "twin"}
+			classify(q)
+			q.HasEQU, q.HasGlobal = hasEqu, hasGlobal
+			q.ErrPath = true
+			return append(out, q)
+		}
+	}
 	if twin {
 		o2 := o
 		switch r.Intn(3) {
